@@ -1069,6 +1069,8 @@ impl<'a> Case<'a> {
                     Err(e) => format!("step err {e}"),
                 }
             }
+            // the controller is slow: real time passes, virtual time does not
+            "stall" => { std::thread::sleep(Duration::from_millis(t[1].parse().unwrap())); "ok".into() }
             "partition" => { self.sim.partition(ip(t[1]), ip(t[2])); "ok".into() }
             "partition1" => { self.sim.partition_oneway(ip(t[1]), ip(t[2])); "ok".into() }
             "repair" => { self.sim.repair(ip(t[1]), ip(t[2])); "ok".into() }
